@@ -161,8 +161,10 @@ def dep_closure(vfile):
 STMT = re.compile(r'^\s*(Theorem|Lemma|Corollary|Fact|Example|Proposition)\s+([A-Za-z0-9_\']+)', re.M)
 
 
-def proof_gate(prop):
-    """Build everything, re-check Props/<prop>.v, collect assumptions.  Returns a dict."""
+def proof_gate(prop, tier='quick'):
+    """Build everything, re-check Props/<prop>.v, collect assumptions.  Returns a dict.
+    Thorough tier: the compiled property file and everything it depends on are re-checked with the independent
+    checker coqchk, which also reports the axioms of the whole closure."""
     t0 = time.time()
     res = {'ok': True, 'errors': [], 'theorems': [], 'assumptions': {},
            'obligations': 0, 'discharged': 0}
@@ -221,6 +223,15 @@ def proof_gate(prop):
             n += len(STMT.findall(strip_comments(open(os.path.join(COQ, f)).read())))
         except OSError:
             pass
+    if tier == 'thorough' and res['ok']:
+        rc2, out2 = sh('timeout 2400 coqchk -silent -o -R . Viv Viv.Props.%s' % prop, cwd=COQ, timeout=2500)
+        m = re.search(r'\* Axioms:(.*?)\n\s*\n\* Constants', out2, re.S)
+        ax = ' '.join((m.group(1) if m else '?').split())
+        res['coqchk'] = {'exit': rc2, 'axioms': ax,
+                         'summary': ' '.join(out2[out2.find('CONTEXT SUMMARY'):].split())[:600]}
+        if rc2 != 0 or ax != '<none>':
+            res['ok'] = False
+            res['errors'].append('coqchk: exit %s, axioms %s: %s' % (rc2, ax, out2[-600:]))
     res['files'] = files
     res['obligations'] = n
     res['discharged'] = n if res['ok'] else 0
